@@ -2846,19 +2846,28 @@ class AggregateBase(UnitsManaged, Saveable, OpenSystem):
                 with eigenbasis_of(Ham):
                     H = Ham.data
 
-                start = self.Nb[0] # this is where excited state starts
+                    start = self.Nb[0] # this is where excited state starts
 
-                # we subtract lowest energy to ease the calcultion,
-                # but we do not remove reorganization enegies
-                subt = numpy.zeros(H.shape[0])
-                subtfil = numpy.amin(numpy.array([H[ii,ii] \
+                    # we subtract lowest energy to ease the calcultion,
+                    # but we do not remove reorganization enegies
+                    subt = numpy.zeros(H.shape[0])
+                    subtfil = numpy.amin(numpy.array([H[ii,ii] \
                                     for ii in range(start, H.shape[0])]))
-                subt.fill(subtfil)
+                    subt.fill(subtfil)
 
-                rho0 = self._thermal_population(temperature,\
-                            subtract = subt,
-                            relaxation_hamiltonian=H,
-                            start=start)
+                    rho0 = self._thermal_population(temperature,\
+                                subtract = subt,
+                                relaxation_hamiltonian=H,
+                                start=start)
+
+                    # the populations are defined in the exciton basis;
+                    # the density matrix has to be created in this basis,
+                    # and it is transformed to the basis of the caller
+                    # when the context is left
+                    rho = DensityMatrix(data=rho0)
+
+                self.rho0 = rho.data
+                return rho
 
             else:
                 raise Exception("Unknown relaxation_theory_limit")
